@@ -366,6 +366,7 @@ type c15Item struct {
 	Code      http2.ErrCode
 	LastID    uint32
 	Opens     bool // H that opens a stream
+	Late      bool // frame of the response direction that arrives after the stream was reset by the client / dropped by GOAWAY
 }
 
 func (it c15Item) String() string {
@@ -385,6 +386,9 @@ func (it c15Item) String() string {
 	}
 	if it.EndStream {
 		s += "/ES"
+	}
+	if it.Late {
+		s += "/late"
 	}
 	if it.Kind == 'R' || it.Kind == 'G' {
 		s += fmt.Sprintf("/code=%d", uint32(it.Code))
@@ -515,7 +519,17 @@ type c15Shape struct {
 	RespContN   int    `json:"respcontn,omitempty"`   // with RespCont: number of CONTINUATION frames (0 = 1)
 	RespHdrCont int    `json:"resphdrcont,omitempty"` // number of CONTINUATION frames after the (non-final) response HEADERS
 	Bidi        bool   `json:"bidi,omitempty"`        // response HEADERS sent right after the request HEADERS
-	Variant     string `json:"variant,omitempty"`     // "", rstc-early, rstc-mid, rsts-early, rsts-mid, refused-retry, goaway
+	ReqPieces   int    `json:"reqpieces,omitempty"`   // >= 3: the first request message is spread over that many DATA frames (overrides MsgMode)
+	RespPieces  int    `json:"resppieces,omitempty"`  // >= 3: the first response message is spread over that many DATA frames
+	Glue        bool   `json:"glue,omitempty"`        // with ReqPieces / RespPieces: the second message starts in the DATA frame that carries the last piece of the first
+	LateData    bool   `json:"latedata,omitempty"`    // late variants: a response DATA frame (one more message) is among the late frames
+	// "", rstc-early, rstc-mid, rsts-early, rsts-mid, refused-retry, goaway, and the late variants: the
+	// server's frames were already in flight when the stream went away and arrive afterwards, each header
+	// block adding entries to the HPACK dynamic table of the response direction:
+	//   rstc-late-hdr   client RST_STREAM before any response; then response HEADERS [DATA] trailers
+	//   rstc-late-trail response HEADERS, DATA*, client RST_STREAM; then [DATA] trailers
+	//   goaway-late     GOAWAY(last-stream-id 1) drops the stream; then response HEADERS [DATA] trailers on it
+	Variant string `json:"variant,omitempty"`
 }
 
 func (s c15Shape) String() string { b, _ := json.Marshal(s); return string(b) }
@@ -660,9 +674,63 @@ func c15ReqMsg(idx, i int) (byte, []byte) {
 	return byte(i & 1), bytes.Repeat([]byte{byte(0x10*(idx+1) + i)}, sizes[idx][i])
 }
 
+// The payload bytes of responses are small and have neither bit 0x80 nor bit 0x02 set: should a
+// tracer under test lose its place in the body and read payload as an envelope prefix, the
+// bogus length stays below 2^28 and the bogus flags do not announce an end-stream message
+// (for which dataTracer allocates a buffer of the announced length: gigabytes per case with
+// bytes like 0x90).  Such a tracer is reported through its wrong messages, not through
+// memory exhaustion of the harness.
 func c15RespMsg(idx, i int) (byte, []byte) {
 	sizes := [2][2]int{{5, 0}, {6, 7}}
-	return byte((i + 1) & 1), bytes.Repeat([]byte{byte(0x80 + 0x10*(idx+1) + i)}, sizes[idx][i])
+	fill := [2][2]byte{{0x01, 0x05}, {0x04, 0x08}}
+	return byte((i + 1) & 1), bytes.Repeat([]byte{fill[idx][i]}, sizes[idx][i])
+}
+
+// c15Pieces spreads one enveloped message over k DATA frames.  The payload is cut
+// into min(k, len(payload)) non-empty pieces, the first of which travels with the
+// (rest of the) 5-byte prefix; when the payload is shorter than k the prefix is
+// cut as well, so that there are always k frames.
+func c15Pieces(env []byte, k int) [][]byte {
+	payload := env[5:]
+	np := k
+	if np > len(payload) {
+		np = len(payload)
+	}
+	if np < 1 {
+		np = 1
+	}
+	pf := k - np // frames that carry nothing but a part of the prefix
+	if pf > 4 {
+		pf = 4
+	}
+	var cuts []int // offsets in env where a new frame starts
+	for i := 1; i <= pf; i++ {
+		cuts = append(cuts, 5*i/(pf+1))
+	}
+	for i := 1; i < np; i++ {
+		cuts = append(cuts, 5+len(payload)*i/np)
+	}
+	var out [][]byte
+	prev := 0
+	for _, c := range cuts {
+		out = append(out, env[prev:c])
+		prev = c
+	}
+	return append(out, env[prev:])
+}
+
+// c15AppendMsg adds the DATA frames of message i: message 0 in k pieces, the
+// others whole; with glue message 1 starts in the frame of message 0's last piece.
+func c15AppendMsg(frames [][]byte, env []byte, i, k int, glue bool) [][]byte {
+	switch {
+	case i == 0:
+		return append(frames, c15Pieces(env, k)...)
+	case i == 1 && glue:
+		last := len(frames) - 1
+		frames[last] = append(append([]byte(nil), frames[last]...), env...)
+		return frames
+	}
+	return append(frames, env)
 }
 
 // c15CallItems builds the frame sequence of call idx (stream id 1+2*idx; a
@@ -704,6 +772,12 @@ func c15CallItems(sh c15Shape, idx int) ([]c15Item, c15Want) {
 	var reqData [][]byte
 	switch {
 	case sh.NReq == 0:
+	case sh.ReqPieces >= 3: // first message spread over ReqPieces DATA frames, others whole
+		for i := 0; i < sh.NReq; i++ {
+			fl, p := c15ReqMsg(idx, i)
+			want.ReqMsgs = append(want.ReqMsgs, c15Msg{fl, uint32(len(p))})
+			reqData = c15AppendMsg(reqData, c15Envelope(fl, p), i, sh.ReqPieces, sh.Glue)
+		}
 	case sh.MsgMode == 1: // first message spread over two DATA frames, others whole
 		for i := 0; i < sh.NReq; i++ {
 			fl, p := c15ReqMsg(idx, i)
@@ -730,18 +804,25 @@ func c15CallItems(sh c15Shape, idx int) ([]c15Item, c15Want) {
 			reqData = append(reqData, c15Envelope(fl, p))
 		}
 	}
+	// response DATA frames and the messages they carry (all of them are sent before any reset in the middle)
 	var respData [][]byte
+	var respMsgs []c15Msg
 	if sh.Resp == 0 {
 		for i := 0; i < sh.NResp; i++ {
 			fl, p := c15RespMsg(idx, i)
-			respData = append(respData, c15Envelope(fl, p))
+			respMsgs = append(respMsgs, c15Msg{fl, uint32(len(p))})
+			if sh.RespPieces >= 3 {
+				respData = c15AppendMsg(respData, c15Envelope(fl, p), i, sh.RespPieces, sh.Glue)
+			} else {
+				respData = append(respData, c15Envelope(fl, p))
+			}
 		}
 	}
 
 	// does the request side end the stream normally?
 	reqEnds := true
 	switch sh.Variant {
-	case "rstc-early", "goaway":
+	case "rstc-early", "goaway", "rstc-late-hdr", "goaway-late":
 		reqEnds = false
 	}
 	endOnHeaders := reqEnds && len(reqData) == 0 && sh.ReqEnd == 0
@@ -753,7 +834,31 @@ func c15CallItems(sh c15Shape, idx int) ([]c15Item, c15Want) {
 		addBlock(c15Item{Dir: c15DirResp, Kind: 'H', Stream: id, Fields: f}, sh.RespHdrCont)
 	}
 	respStarted := false
-	wantsRespHeaders := sh.Resp == 0 && sh.Variant != "rstc-early" && sh.Variant != "rsts-early" && sh.Variant != "goaway"
+	wantsRespHeaders := sh.Resp == 0 && sh.Variant != "rstc-early" && sh.Variant != "rsts-early" && sh.Variant != "goaway" &&
+		sh.Variant != "rstc-late-hdr" && sh.Variant != "goaway-late"
+	// frames of the server that were in flight when the stream went away: they reach the tracer after the
+	// RST_STREAM / GOAWAY, belong to no tracked stream and must change nothing but the HPACK state
+	lateTrailers := func() {
+		if sh.LateData {
+			add(c15Item{Dir: c15DirResp, Kind: 'D', Stream: id, Data: c15Envelope(0, []byte{0x09, 0x09}), Late: true})
+		}
+		it := c15Item{Dir: c15DirResp, Kind: 'H', Stream: id, Fields: c15TrailerFields(idx), EndStream: true, Late: true}
+		conts := sh.trailerConts()
+		it.Split, it.Frags = conts > 0, conts+1
+		add(it)
+		for i := 0; i < conts; i++ {
+			add(c15Item{Dir: c15DirResp, Kind: 'C', Stream: id, More: i < conts-1, Late: true})
+		}
+	}
+	lateResponse := func() {
+		it := c15Item{Dir: c15DirResp, Kind: 'H', Stream: id, Fields: c15RespFields(idx), Late: true}
+		it.Split, it.Frags = sh.RespHdrCont > 0, sh.RespHdrCont+1
+		add(it)
+		for i := 0; i < sh.RespHdrCont; i++ {
+			add(c15Item{Dir: c15DirResp, Kind: 'C', Stream: id, More: i < sh.RespHdrCont-1, Late: true})
+		}
+		lateTrailers()
+	}
 	if sh.Bidi && wantsRespHeaders {
 		respHeaders()
 		respStarted = true
@@ -779,6 +884,16 @@ func c15CallItems(sh c15Shape, idx int) ([]c15Item, c15Want) {
 		add(c15Item{Dir: c15DirResp, Kind: 'G', LastID: 1, Code: http2.ErrCodeNo})
 		want.Reset, want.ConnErr, want.Code = true, true, uint32(http2.ErrCodeNo)
 		return items, want
+	case "rstc-late-hdr":
+		add(c15Item{Dir: c15DirReq, Kind: 'R', Stream: id, Code: http2.ErrCodeCancel})
+		want.Reset, want.Code = true, uint32(http2.ErrCodeCancel)
+		lateResponse()
+		return items, want
+	case "goaway-late":
+		add(c15Item{Dir: c15DirResp, Kind: 'G', LastID: 1, Code: http2.ErrCodeNo})
+		want.Reset, want.ConnErr, want.Code = true, true, uint32(http2.ErrCodeNo)
+		lateResponse()
+		return items, want
 	}
 
 	if sh.Resp == 1 {
@@ -790,15 +905,19 @@ func c15CallItems(sh c15Shape, idx int) ([]c15Item, c15Want) {
 	if !respStarted {
 		respHeaders()
 	}
-	for i, d := range respData {
-		fl, p := c15RespMsg(idx, i)
-		want.RespMsgs = append(want.RespMsgs, c15Msg{fl, uint32(len(p))})
+	want.RespMsgs = respMsgs
+	for _, d := range respData {
 		add(c15Item{Dir: c15DirResp, Kind: 'D', Stream: id, Data: d})
 	}
 	switch sh.Variant {
 	case "rstc-mid":
 		add(c15Item{Dir: c15DirReq, Kind: 'R', Stream: id, Code: http2.ErrCodeCancel})
 		want.Reset, want.Code = true, uint32(http2.ErrCodeCancel)
+		return items, want
+	case "rstc-late-trail":
+		add(c15Item{Dir: c15DirReq, Kind: 'R', Stream: id, Code: http2.ErrCodeCancel})
+		want.Reset, want.Code = true, uint32(http2.ErrCodeCancel)
+		lateTrailers()
 		return items, want
 	case "rsts-mid":
 		add(c15Item{Dir: c15DirResp, Kind: 'R', Stream: id, Code: http2.ErrCodeInternal})
